@@ -14,6 +14,15 @@ CHECKS = {
  "C07": ("exploration", "differential runtime monitor: library codecs vs independent reference codec",
          "Every exported elementary/string/bit-string type is compared with an independent reference codec: exhaustively for all 1- and 2-byte patterns and values, on boundary/walking-bit/special-float/random patterns for wider types, across string prefix widths and FixedSizeString capacities 1..500, and on thousands of generated Array/Struct/StructTag layouts; the type-code table is checked for code and width.",
          "Trusts vlib/refcodec.py (self-tested on the documentation's vectors) and Python's struct/int.to_bytes.", "4 C07"),
+ "C09": ("exploration", "runtime path monitor: every emitted EPATH parsed by a strict independent parser and compared with the intended address",
+         "Every path built by the library's segment classes and path helpers is re-parsed by a strict CIP EPATH parser and compared with the intended segment sequence: logical values exhaustive to 2^16 plus 32-bit boundaries for five logical types, request_path with int/bytes arguments, tag strings from the documented grammar, port routes for every alias x slot and IPv4 links of every length; the same parser judges every request path the reference target receives in the end-to-end scenarios.",
+         "Trusts vlib/refepath.py (CIP Vol 1 App. C-1.4; self-tested on the repository's wire captures and PM020 examples).", "4 C09"),
+ "C12": ("fault_enumeration", "runtime fault injection on a scripted fake OS socket (segmentation schedules x close/timeout/reset points) with byte-equality and termination oracles",
+         "The real Socket.receive/Socket.send run over a fake OS socket whose schedule enumerates every subset of a boundary cut-set as split points, all uniform chunk sizes 1..256 and random compositions for frames at every length class, and for each frame every prefix class x {peer close, timeout, reset, OSError}; send is driven through every partial-send pattern, 0-byte sends and errors after j bytes.",
+         "Enumeration is exhaustive over the stated cut-set, not over all 2^(n-1) compositions; one frame in flight.", "4 C12"),
+ "C15": ("exploration", "runtime differential: library parser vs reference recogniser over generated spellings and single-edit corruptions",
+         "Routes from the documented grammar are spelled 8 ways each and must all yield the reference host/port/route bytes; every single-character edit of sampled spellings is classified by an independent recogniser (in grammar / listed rejection class / don't-care) and the library's outcome compared; driver constructors are checked for the shortcut rules including cross-instance aliasing.",
+         "Grammar and rejection classes as listed in the property; unusual hosts, upper-case aliases, leading zeros, numeric ports outside 1..14 are don't-cares.", "4 C15"),
  "C19": ("exploration", "exhaustive runtime enumeration of every lookup against the class bodies",
          "Every EnumMap table found by walking the package is exercised exhaustively (all members x 9 casing classes, all codes, status 0..255, all extended pairs) against an oracle derived from the class bodies; the quantifier is finite, so the run is complete (exhaustive: true).",
          "Oracle reads members from vars(cls); trusts Python dict/str semantics.", "4 C19"),
